@@ -22,6 +22,7 @@ macro_rules! kmer_bincode {
 }
 kmer_bincode!(kmer_bincode_dna_k1, Dna, 1, usize);
 kmer_bincode!(kmer_bincode_dna_k8, Dna, 8, usize);
+kmer_bincode!(kmer_bincode_dna_k17, Dna, 17, usize);
 kmer_bincode!(kmer_bincode_dna_k32, Dna, 32, usize);
 kmer_bincode!(kmer_bincode_iupac_k16, Iupac, 16, usize);
 kmer_bincode!(kmer_bincode_dna_k32_u64, Dna, 32, u64);
